@@ -33,13 +33,13 @@ from pysyncobj.config import SyncObjConf, FAIL_REASON  # noqa: E402
 import logging as _logging
 _logging.getLogger('pysyncobj').setLevel(_logging.CRITICAL + 1)   # handler errors are observed, not logged
 
-MOD = (1 << 61) - 1
+MASK = (1 << 63) - 1
 RO_BASE = 100          # nids >= RO_BASE are read-only nodes
 
 
 def hnums(nums, acc=7):
     for x in nums:
-        acc = (acc * 1000003 + x + 1) % MOD
+        acc = (acc * 1000003 + x + 1) & MASK
     return acc
 
 
@@ -95,6 +95,8 @@ def install_storage_hooks():
         sim = SimTransport.sim
         if sim is None:
             return
+        if sim.dying:
+            raise KillNow()          # the process is dead: nothing it still tries to write reaches the disk
         sim.prim_count += 1
         if sim.in_delete_to:
             sim.prim_in_delete += 1
@@ -104,6 +106,7 @@ def install_storage_hooks():
                                         (sim.kill_at >= 1000 and sim.in_delete_to and sim.prim_in_delete > sim.kill_at - 1000)):
             sim.kill_info = {'at': sim.kill_at, 'next_primitive': kind, 'in_delete_to': bool(sim.in_delete_to),
                              'done': list(sim.prim_log[:-1])}
+            sim.dying = True
             raise KillNow()
 
     orig_write = J.ResizableFile.write
@@ -275,6 +278,7 @@ class Sim(object):
         self.dead = set()
         self.prim_count = 0
         self.prim_in_delete = 0
+        self.dying = False
         self.prim_log = []
         self.kill_at = None
         self.kill_info = None
@@ -356,6 +360,8 @@ class Sim(object):
 
     # ---- transport callbacks ------------------------------------------------------------
     def on_send(self, src, dst, msg):
+        if self.dying:
+            return      # (a bare `except:` in the code under test may swallow KillNow: the dead process sends nothing)
         self.sent.append((src, dst, msg))
         self.chan.setdefault((src, dst), deque()).append(_pickle.dumps(msg, 2))
 
@@ -445,11 +451,17 @@ class Sim(object):
                         t = self.tr(b)
                         t._onMessageReceived(t._node_for(a), _pickle.loads(raw))
                 except KillNow:
-                    self.abandoned = self.nodes[n]
-                    self.kill(n, destroy=False)
-                    self.step_nid = None
+                    pass
+                except Exception:
+                    if not self.dying:
+                        raise
                 finally:
                     self.kill_at = None
+                    if self.dying:
+                        self.dying = False
+                        self.abandoned = self.nodes[n]
+                        self.kill(n, destroy=False)
+                        self.step_nid = None
             elif k == 'deliver':
                 _, a, b, now, rnd = ev
                 self.begin(now, rnd)
